@@ -37,6 +37,12 @@ class ContinueSig(Exception):
     pass
 
 
+# Exceptions after which the device stream may have been consumed part-way (the session is "broken": only close() / connect() may follow
+# a normal return).  A callee that reads the stream (its modifies names G.rpos) leaves G.broken arbitrary when it raises one of these; no
+# function may return NORMALLY, nor start another loop iteration, with G.broken changed -- i.e. after swallowing such a failure.
+STREAM_FAILURES = ('AnyError', 'AdbTimeoutError', 'InvalidCommandError', 'InvalidChecksumError')
+
+
 class RaiseSig(Exception):
     def __init__(self, exc):
         self.exc = exc
@@ -671,9 +677,11 @@ class Executor(object):
             if cls == exc.cls or (cls.endswith('+') and exc_is_subclass(exc.cls, cls[:-1])):
                 clauses = cl
                 break
-        if clauses is None and '*' in contract.raises and exc.cls == 'AnyError':
+        if clauses is None and '*' in contract.raises and (exc.cls == 'AnyError' or getattr(exc, 'refined_from_any', False)):
             # '*' stands for the arbitrary exception an abstract callee (transport, user callback) may raise -- not for concrete classes
+            # (an arbitrary exception that a handler identified as some class and re-raised is still that arbitrary exception)
             clauses = contract.raises['*']
+            exc.cls = 'AnyError'
         if clauses is None:
             self.oblige('no-escape[%s]' % exc.cls, z3.BoolVal(False), set(contract.escape_props or contract.props), 'exc',
                         expr='exception %s must not escape %s (not in its raises clause)' % (exc.cls, contract.key),
@@ -706,6 +714,8 @@ class Executor(object):
                 nv = o.fields.get(f)
                 if nv is ov or (id(o), f) in allowed:
                     continue
+                if o is self.G and f == 'broken' and label.startswith('frame['):
+                    continue          # an operation that raises may leave the session broken; only normal returns and loop back-edges may not
                 if isinstance(ov, (VObj, VLock)):
                     if nv is not ov:
                         self.oblige('%s/%s.%s' % (label, o.name, f), z3.BoolVal(False), set(contract.props), 'frame',
@@ -783,7 +793,29 @@ class Executor(object):
         for t in st.targets:
             self.assign(t, v)
 
+    def write_only_target(self, target):
+        """`obj.attr` where attr is not part of the declared state and is never READ anywhere in its module (only assigned / augmented):
+        a counter kept for debugging.  Such a write cannot influence anything the contracts talk about and is skipped (A-WRITEONLY)."""
+        if not isinstance(target, ast.Attribute):
+            return False
+        try:
+            o = self.eval_pure(target.value)
+        except (Unsupported, KeyError):
+            return False
+        if isinstance(o, VOpt):
+            o = o.val
+        if not isinstance(o, VObj) or target.attr in o.fields:
+            return False
+        decl = dsl.CLASSES.get(o.cls)
+        if decl is None or target.attr in decl.fields or not decl.real.get(self.twin):
+            return False
+        return self.world.attr_is_write_only(decl.real[self.twin], target.attr)
+
     def st_AugAssign(self, st):
+        if self.write_only_target(st.target):
+            self.eval(st.value)              # the right-hand side is still evaluated (it may raise)
+            self.world.use('write-only attribute')
+            return
         cur = self.eval(self.load_of(st.target))
         rhs = self.eval(st.value)
         v = self.binop(st.op, cur, rhs, st, aug=True)
@@ -808,6 +840,9 @@ class Executor(object):
             if not isinstance(o, VObj):
                 raise Unsupported('attribute store on %r' % (o,))
             decl = dsl.CLASSES.get(o.cls)
+            if target.attr not in o.fields and self.write_only_target(target):
+                self.world.use('write-only attribute')
+                return
             if target.attr not in o.fields:
                 if decl is not None and target.attr not in decl.fields and not getattr(self, 'in_init', False):
                     # an attribute that is not part of the declared state of the class: the contracts cannot speak about it.
@@ -985,7 +1020,15 @@ class Executor(object):
             if not isinstance(v, VClass):
                 raise Unsupported('except clause %r' % (v,))
             names.append(self.world.exc_name(v))
-        return any(exc_is_subclass(exc.cls, p) for p in names)
+        if any(exc_is_subclass(exc.cls, p) for p in names):
+            return True
+        if exc.cls == 'AnyError':
+            # "any exception" of an abstract callee may well be one of the classes this handler names
+            if self.choose('AnyError-is-%s' % names[0]):
+                exc.cls = names[0]
+                exc.refined_from_any = True
+                return True
+        return False
 
     def st_With(self, st):
         if len(st.items) != 1:
@@ -1408,6 +1451,15 @@ class Executor(object):
                 return loops[k]
         return None
 
+    def broken_unchanged(self):
+        """The implicit invariant of every loop and frame of every normal exit: the session was not broken and carried on (see STREAM_FAILURES)."""
+        if 'broken' not in self.G.fields:
+            return None
+        old = self.old_snap.get(id(self.G))
+        if old is None or 'broken' not in old[1]:
+            return None
+        return self.G.fields['broken'].term == old[1]['broken'].term
+
     def cut_loop(self, st, kind, seq=None):
         ordinal = self.loop_ordinal(st)
         spec = self.loop_spec(st, ordinal)
@@ -1419,8 +1471,15 @@ class Executor(object):
             idx = VInt(0)
         # 1. invariant on entry
         self.assert_invariant(spec, tag + '/entry', idx, seq)
+        b = self.broken_unchanged()
+        if b is not None:
+            self.oblige(tag + '/entry/no-stream-failure-swallowed', b, {'C12', 'C03'} & set(self.contract.props) or set(self.contract.props), 'loop',
+                        expr='no failed read of the device stream was swallowed before this loop')
         # 2. havoc the loop's write set, assume the invariant
         self.loop_havoc(st, spec, seq)
+        if b is not None:
+            self.G.fields['broken'] = VBool(z3.Bool(self.fresh_name('G.broken')))
+            self.assume(self.broken_unchanged())
         if kind == 'for':
             idx = VInt(z3.Int(self.fresh_name('_i')))
             self.assume(z3.And(idx.term >= 0, idx.term <= seq.length))
@@ -1446,6 +1505,10 @@ class Executor(object):
             nxt = VInt(idx.term + 1) if idx is not None else None
             self.cur_node = st
             self.assert_invariant(spec, tag + '/preserved', nxt, seq)
+            b = self.broken_unchanged()
+            if b is not None:
+                self.oblige(tag + '/preserved/no-stream-failure-swallowed', b, {'C12', 'C03'} & set(self.contract.props) or set(self.contract.props), 'loop',
+                            expr='the loop does not go round again after a failed read of the device stream (the cursor may sit inside a packet)')
             if var0 is not None:
                 var1 = self.eval_spec_expr(spec.variant, nxt, seq)
                 self.oblige(tag + '/variant', z3.And(to_real(var1) < to_real(var0), to_real(var0) >= 0), set(self.contract.props), 'loop',
@@ -2085,6 +2148,8 @@ class Executor(object):
                 cname = cls.rstrip('+') if cls != '*' else 'AnyError'
                 exc = VExc(cname, self.world.exc_payload(self, contract, cname, bound))
                 self.apply_effects(contract, bound, old, old_bound, clauses, None, cls, exc=exc)
+                if 'G.rpos' in contract.modifies and cname in STREAM_FAILURES and 'broken' in self.G.fields:
+                    self.G.fields['broken'] = VBool(z3.Bool(self.fresh_name('G.broken')))
                 event['outcome'] = ('raise', cname)
                 event['post'] = self.capture_modified(contract, bound)
                 raise RaiseSig(exc)
